@@ -100,7 +100,9 @@ Fixpoint depends (e : expr) (x : nat) : bool :=
   | Neg a | PowN _ a | Fun _ a | UFun _ a => depends a x
   | Bin _ a b | BFun _ a b => depends a x || depends b x
   | Cond c a b => depends a x || depends b x || dependsl c x
-  | ExpDeriv _ _ d => depends d x
+  (* the code asks the field `derivative`, which the constructor builds from a, b, db: same answer on the nodes
+     that differentiation builds *)
+  | ExpDeriv a b d => depends a x || depends b x || depends d x
   end
 with dependsl (c : lexpr) (x : nat) : bool :=
   match c with
